@@ -1,3 +1,4 @@
+import PGV.Props.Facts.RuleTable
 import PGV.Proofs.Size
 import PGV.Proofs.Atoi
 import PGV.Proofs.LangEq
@@ -342,5 +343,10 @@ theorem F_C01_e_witness :
       ∧ inSet .ge 9007199254740993 0 (.real (.fin (2 ^ 52) 1)) = false
       ∧ boundsExact (.float 64 (.fin (2 ^ 52) 1) [] []) 9007199254740993 0 = false := by decide
 
+
+/-- the code's rule table `validName2FnMap` binds every rule name to the function the model's table
+binds it to, and has exactly the model's rule names (re-extracted from the source on every run) -/
+theorem C01_rule_table : PGV.Expected.ruleTableOK PGV.Generated.ruleTable = true ∧ PGV.Expected.modelKeysOK PGV.Generated.ruleKeys = true :=
+  ⟨PGV.Props.Facts.T2_rule_table, PGV.Props.Facts.T2_model_keys⟩
 
 end PGV.Props.C01
